@@ -295,6 +295,7 @@ class Runner:
         self.extra_texts: list[str] = []    # structure of the pool members composed from them, as built
 
     def do(self, op: dict):
+        self.last_point = None
         r = self._do(op)
         if r[0] == "ok" and wire.cls(r[1]) in wire.HEAD:
             self.returned.append(r[1])
@@ -312,8 +313,9 @@ class Runner:
             off = 100000 * (len(self.extra_texts) + 1)          # object ids disjoint from the pool's and from each other's
             self.extra_texts.append(re.sub(r"@(\d+)", lambda m: "@" + str(int(m.group(1)) + off), wire.expr(new, ids={})))
             return ("ok", None)
-        x = op.get("x", "x")
+        x = wire.fresh_str(op.get("x", "x"))
         p = wire.build_point(op["p"])
+        self.last_point = (p, op["p"])        # the caller's own Point object, and how it was written
         if k in ("at", "fail_missing"):
             return call(e.at, p)
         if k == "atnum":
